@@ -29,7 +29,7 @@ WRAPS_COMMON = [
     "isalpha", "isalnum", "isdigit", "isspace", "isupper", "islower", "ispunct", "tolower", "toupper",
 ]
 # clang builds: the library's thread_locals go through __emutls_get_address, which the scheduler serves per task
-EMUTLS_WRAPS = ["__emutls_get_address", "__cxa_thread_atexit"]
+EMUTLS_WRAPS = ["__emutls_get_address", "__cxa_thread_atexit", "__cxa_atexit"]
 UBSAN_HANDLERS = [
     "add_overflow", "sub_overflow", "mul_overflow", "negate_overflow", "divrem_overflow",
     "shift_out_of_bounds", "out_of_bounds", "load_invalid_value", "type_mismatch_v1",
